@@ -40,6 +40,10 @@ func (interp *Interpreter) gta(root *node, rpath, importPath, pkgName string) ([
 			}
 
 		case defineStmt:
+			if !isGlobalDefine(n) {
+				// Local definition in a nested statement, processed at CFG.
+				return false
+			}
 			var (
 				atyp *itype
 				err2 error
@@ -110,6 +114,10 @@ func (interp *Interpreter) gta(root *node, rpath, importPath, pkgName string) ([
 			return false
 
 		case defineXStmt:
+			if !isGlobalDefine(n) {
+				// Local definition in a nested statement, processed at CFG.
+				return false
+			}
 			err = compDefineX(sc, n)
 
 		case valueSpec:
